@@ -45,8 +45,8 @@ CHECKS = {
         ref="5 C07"),
     "C08": dict(
         technique="TLA+ trace validation of CLI runs (TrCli.tla over Wcag.tla; known-finding classes as input predicates) + TLC model checking of the as-is rewrite algorithm (Cli.tla)",
-        text="Design level: Cli.tla (as-is algorithm: in-place custom-property table, fallback form counted but not written, :root/html post-pass) over all abstract stylesheets of <=2 (thorough 3) rules: Partition, CardMeetsTarget, FailedUnchanged, ReportedIsWritten modulo the input classes F4/F5/F6. Code level: generated stylesheets (known abstract tree) run through the real command; stdout summary, report cards and the re-parsed *_cm.css are judged per rule by TLC: every rule in exactly one category, card colour = API result = written colour and meets the target, rules counted readable meet it in the written file, attention rules unchanged.",
-        note="Trusted: tinycss2 as CSS tokenizer, html.parser for cards, the Python API of the same tree as reference (as the property states). Known findings F4, F5, F6 (known_findings.json) are suppressed only for inputs in their class and only the listed clauses.",
+        text="Design level: Cli.tla (as-is algorithm: custom-property table updated in place, fallback form, :root/html post-pass; the two behaviours repaired in this round are switches whose old values TLC must reject) over all abstract stylesheets of <=2 (thorough 3) rules: Partition, CardMeetsTarget, FailedUnchanged, ReportedIsWritten modulo the input class F6; 15 named corner stylesheets (CliScenarios.tla) and TLC-simulated stylesheets are replayed into the command; TrCliModel.tla checks that Cli.tla predicts each real run (drift only). Code level: generated stylesheets (known abstract tree) run through the real command; stdout summary, report cards and the re-parsed *_cm.css are judged per rule by TLC: every rule in exactly one category, card colour = API result = written colour and meets the target, rules counted readable meet it in the written file, attention rules unchanged.",
+        note="Trusted: tinycss2 as CSS tokenizer, html.parser for cards, the Python API of the same tree as reference (as the property states). Known finding F6 (known_findings.json; F4/F5 were repaired) is suppressed only for rules in its input class.",
         ref="5 C08"),
     "C09": dict(
         technique="TLA+ trace validation of CLI runs (TrCli.tla: SameExceptAdjusted over token-value structure, file-system clauses; TrBatch.tla for directory runs)",
